@@ -169,7 +169,7 @@ class Engine(FsMixin, ExprMixin, StmtMixin, CallMixin, SpecMixin, BuiltinMixin, 
         o = z3.Int("o!pre")
         for f in c.get("ref_fields", []):
             arr = st.field(f)
-            st.assume(qforall([o], z3.Implies(Val.is_RefV(z3.Select(arr, o)), Val.r(z3.Select(arr, o)) < self.frontier), patterns=[z3.Select(arr, o)]))
+            st.assume(qforall([o], z3.Implies(Val.is_RefV(z3.Select(arr, o)), vr(z3.Select(arr, o)) < self.frontier), patterns=[z3.Select(arr, o)]))
         st.assume(self.frontier > 0)
         st.front = self.frontier
         for ax in self.extra_axioms:
@@ -308,7 +308,7 @@ class Engine(FsMixin, ExprMixin, StmtMixin, CallMixin, SpecMixin, BuiltinMixin, 
                 pv = self.spec_v(entry, entry, m[m.index("(") + 1:-1], binds)
                 for f in ("$fs_kind", "$fs_text", "$fs_target"):
                     if f not in allowed or allowed[f] is not None:
-                        allowed.setdefault(f, []).append(("tree" if m.startswith("fs_tree(") else "path", Val.p(pv.t)))
+                        allowed.setdefault(f, []).append(("tree" if m.startswith("fs_tree(") else "path", vp(pv.t)))
             elif m == "fs":
                 for f in ("$fs_kind", "$fs_text", "$fs_target"):
                     allowed[f] = None
@@ -334,7 +334,7 @@ class Engine(FsMixin, ExprMixin, StmtMixin, CallMixin, SpecMixin, BuiltinMixin, 
                 self.oblige(f"frame {key}: {f} unchanged", "frame", st.heap[f] == entry.field(f), st)
                 continue
             o = z3.Int("o!frame")
-            exc = [o != Val.r(x.t) for x in allowed.get(f, [])]
+            exc = [o != vr(x.t) for x in allowed.get(f, [])]
             goal = qforall([o], z3.Implies(z3.And(o < self.frontier, *exc), z3.Select(st.heap[f], o) == z3.Select(entry.field(f), o)))
             self.oblige(f"frame {key}: only {[clause_text(m) for m in mods]} may change (field {f})", "frame", goal, st,
                         info=dict(clause="__frame__" if not mods else None, tag="frame", field=f))
